@@ -86,7 +86,7 @@ pub fn gen_node(r: &mut Rng, tier: &str, rooms: u8, nondyadic: bool, name: &'sta
     let n = scale(tier, 260, 12000);
     (0..n)
         .map(|i| {
-            let big = tier == "thorough" && i % 4 == 0;
+            let big = (tier == "thorough" && i % 4 == 0) || i % 10 == 9;
             let p = InstParams {
                 max_courses: if big { 10 } else { 6 },
                 max_parts: if big { 28 } else { 10 },
@@ -259,9 +259,10 @@ pub fn gen_solve(r: &mut Rng, tier: &str, rooms: u8, name: &'static str) -> Vec<
     (0..n)
         .map(|i| {
             let small = i % 2 == 0; // brute-force sized
+            let large = i % 10 == 9;
             let p = InstParams {
-                max_courses: if small { 4 } else { 6 },
-                max_parts: if small { 7 } else { 10 },
+                max_courses: if small { 4 } else if large { 10 } else { 6 },
+                max_parts: if small { 7 } else if large { 24 } else { 10 },
                 rooms,
                 nondyadic: i % 5 == 0,
                 allow_freeable: i % 3 == 1,
